@@ -28,7 +28,7 @@ SCOPE = {
     'quick': 'configurations file pickle, file json, dir pickle, sqlite file; prior states {} and {a: old, b: keep}; operations set-new, overwrite, '
              'update of two keys, delete, pop, clear, dump from a cache front, merely re-opening; every effect index of each operation (writes: '
              'also half written)',
-    'thorough': 'as quick plus dir json, dir compressed, file source-text and a three-key prior state',
+    'thorough': 'as quick plus dir json, dir compressed and a three-key prior state',
 }
 ASSUMPTIONS = ['crash granularity: the Python-level primitive (os.*, file write/close, sqlite execute/commit) plus half-written data; what happens '
                'inside one system call is the operating system\'s atomicity', 'sqlite\'s own journalling is trusted', 'a killed process loses nothing '
@@ -39,7 +39,7 @@ def units(tier, seed):
     cids = ['file-pickle', 'file-json', 'dir-pickle', 'sqlite']
     priors = [{}, {'a': 'old', 'b': 'keep'}, {'T(1, 2)': 'old', 'b': 'keep'}]
     if tier == 'thorough':
-        cids += ['dir-json', 'dir-compressed', 'file-source']
+        cids += ['dir-json', 'dir-compressed']       # source-text archives: see the listed C03/C04 finding (import-based reader)
         priors.append({'a': 'old', 'b': 'keep', 'c': 3})
     ops = [{'op': 'set', 'key': 'n', 'value': 'new'}, {'op': 'set', 'key': 'a', 'value': 'new'},
            {'op': 'update', 'items': [['a', 'new'], ['n', 'new2']]}, {'op': 'del', 'key': 'a'}, {'op': 'pop', 'key': 'a'},
